@@ -1,2 +1,3 @@
 pub mod objects;
 pub mod chaos;
+pub mod mutate;
